@@ -425,3 +425,51 @@ class EncodeBoolSequence(Contract):
             raise Unsupported("result is not an expression reference")
         for name, g in self.spec(r.term, vals.length, BLEN(r.term), vals):
             ctx.oblige(name, g)
+
+
+class BoolSetLiteral(_BoolCodec):
+    """Bool.set(<python bool>) stores Int(1) for True and Int(0) for False into the value's own variable."""
+    target = "pyteal.ast.abi.bool.Bool.set"
+
+    def setup(self, ctx, I):
+        this, var = self.this(ctx)
+        v = z3.Bool("value")
+        ctx.ghost.update(var=var, v=v)
+        return {"args": [this, v]}
+
+    def post(self, ctx, I, outcome, st):
+        var, v = ctx.ghost["var"], ctx.ghost["v"]
+        if outcome[0] == "raise":
+            ctx.oblige("never-raises", z3.BoolVal(False))
+            return
+        res = outcome[1]
+        c = self.const(res.fields["value"]) if self.is_store(res, var) else None
+        ctx.oblige("stores-an-Int-constant-into-the-own-variable", z3.BoolVal(c is not None))
+        if c is not None:
+            ctx.oblige("the-constant-is-1-for-True-and-0-for-False", (c if is_z3(c) else z3.IntVal(c)) == z3.If(v, 1, 0))
+
+
+class BoolSetExpr(_BoolCodec):
+    """Bool.set(<expression>) stores Not(Not(e)): every non-zero value becomes 1, so the variable always holds 0 or 1."""
+    target = "pyteal.ast.abi.bool.Bool.set"
+
+    def setup(self, ctx, I):
+        this, var = self.this(ctx)
+        t = z3.Int("value_expr")
+        ctx.assume(t >= 0)
+        e = SRef(t, self.pt.Expr)
+        self.callees[("type", self.pt.Expr)] = lambda I_, x: self.pt.Expr
+        self.callees[("isinstance", self.pt.Expr)] = lambda I_, x, classes: False    # neither a ComputedValue nor an ABI value: a plain expression
+        ctx.ghost.update(var=var, e=e)
+        return {"args": [this, e]}
+
+    def post(self, ctx, I, outcome, st):
+        var, e = ctx.ghost["var"], ctx.ghost["e"]
+        if outcome[0] == "raise":
+            ctx.oblige("never-raises", z3.BoolVal(False))
+            return
+        res = outcome[1]
+        ok = self.is_store(res, var) and self.is_ctor(res.fields["value"], "Not", 1) and self.is_ctor(res.fields["value"].fields["args"][0], "Not", 1)
+        ctx.oblige("stores-Not(Not(.))-into-the-own-variable", z3.BoolVal(bool(ok)))
+        if ok:
+            ctx.oblige("of-the-given-expression", self.same(res.fields["value"].fields["args"][0].fields["args"][0], e))
